@@ -52,10 +52,19 @@ ExpCases3(u) == {[kind |-> "exp", grid |-> 3, times |-> <<1, 2, 3, 4, 5>>, mo |-
                    mo \in {{}, {<<1, 4>>, <<2, 1>>}}, h \in {<<0, 12>>, <<0>>}, ol \in {<<0, 12, 24, 36, 48, 72, 96, 120>>, <<0, 60, 84>>}}
 ExpCases4(u) == {[kind |-> "exp", grid |-> 4, times |-> ts, mo |-> mo, hours |-> h, oleads |-> ol] :
                    ts \in {<<1, 2, 3>>, <<1, 3>>}, mo \in {{}, {<<1, 4>>, <<2, 1>>}}, h \in {<<0>>, <<0, 1>>, <<2>>}, ol \in {<<0, 1, 2, 3, 4>>, <<3>>, <<1, 5>>, <<2, 3>>}}
+\* ---- window: two runs x four unevenly spaced lead times x two locations; amounts 0, 1, 2 or missing ----
+WLeads == <<0, 6, 12, 24>>
+WVals == {Zero, R(1), R(2), NaN}
+Rev(s) == [k \in DOMAIN s |-> s[Len(s) + 1 - k]]
+WinCases(u) == {[kind |-> "win", s |-> <<a, b, cc, d>>, bt |-> bt, thr |-> t] : a \in WVals, b \in WVals, cc \in WVals, d \in WVals,
+                   bt \in WindowTypes, t \in {Zero, R(1), Frac(5, 2)}}
+\* observations: the series (run 1, location 1), reversed (run 2, location 1), all zero / all one at location 2; forecasts: the other way round
+WObs(x) == [p \in Pos(2, 4, 2) |-> IF p[3] = 1 THEN (IF p[1] = 1 THEN x.s[p[2]] ELSE Rev(x.s)[p[2]]) ELSE (IF p[1] = 1 THEN Zero ELSE R(1))]
+WFc(x)  == [p \in Pos(2, 4, 2) |-> IF p[3] = 1 THEN (IF p[1] = 2 THEN x.s[p[2]] ELSE Rev(x.s)[p[2]]) ELSE (IF p[1] = 2 THEN Zero ELSE R(1))]
 SubT(c1) == [k \in DOMAIN c1.times |-> XTg(c1.grid)[c1.times[k]]]
 SubObs(c1) == [p \in Pos(Len(c1.times), Len(XLg(c1.grid)), 2) |-> XObs(c1.grid, c1.mo)[<<c1.times[p[1]], p[2], p[3]>>]]
 
-Cases(u) == IF Kind = "acc" THEN AccCases(u) ELSE IF Kind = "ens" THEN EnsCases(u) ELSE ExpCases(u) \cup ExpCases3(u) \cup ExpCases4(u)
+Cases(u) == IF Kind = "acc" THEN AccCases(u) ELSE IF Kind = "ens" THEN EnsCases(u) ELSE IF Kind = "win" THEN WinCases(u) ELSE ExpCases(u) \cup ExpCases3(u) \cup ExpCases4(u)
 
 Emit ==
   CASE c.kind = "acc" ->
@@ -71,6 +80,11 @@ Emit ==
                        anyMissing |-> HasNaN(c.ens), allMissing |-> Mem(c.ens) = <<>>,
                        lo |-> IF Mem(c.ens) = <<>> THEN "nan" ELSE J(MinSeq(Mem(c.ens))), hi |-> IF Mem(c.ens) = <<>> THEN "nan" ELSE J(MaxSeq(Mem(c.ens))),
                        pit |-> J(Pit(c.ens, c.obs))]))
+    [] c.kind = "win" ->
+        PrintT(ToJson([kind |-> "win", times |-> <<Day1, Day1 + 86400>>, leads |-> WLeads, locs |-> <<5, 9>>,
+                       obs |-> FlatJ(WObs(c), 2, 4, 2), fcst |-> FlatJ(WFc(c), 2, 4, 2), bt |-> c.bt, thr |-> J(c.thr),
+                       eobs |-> FlatJ(WindowScript(WObs(c), 2, 4, 2, WLeads, c.bt, c.thr), 2, 4, 2),
+                       efcst |-> FlatJ(WindowScript(WFc(c), 2, 4, 2, WLeads, c.bt, c.thr), 2, 4, 2)]))
     [] c.kind = "exp" ->
         LET ts == SubT(c)  C == SubObs(c)  ot == ExpandTimes(ts, c.hours)  XL == XLg(c.grid)
             E == ExpandVerifU(ts, XL, 2, C, c.hours, c.oleads, LUnit(c.grid)) IN
@@ -85,10 +99,13 @@ InvAccIsPreAgg == c.kind = "acc" => \A i \in 1..ANT : AccumulateIsPreAggSum([j \
 InvCdfMonotone == c.kind = "ens" => CdfMonotone(c.ens, Ths)
 InvPitRange == c.kind = "ens" => (IsNaN(Pit(c.ens, c.obs)) \/ (Ge(Pit(c.ens, c.obs), Zero) /\ Le(Pit(c.ens, c.obs), One)))
 InvExpandSound == c.kind = "exp" => ExpandSoundU(SubT(c), XLg(c.grid), 2, SubObs(c), c.hours, c.oleads, LUnit(c.grid))
+InvWindowIsSpell == c.kind = "win" => (WindowIsSpell(c.s, c.bt, c.thr) /\ WindowIsSpell(Rev(c.s), c.bt, c.thr))
+InvWindowBounded == c.kind = "win" => (WindowBounded(c.s, WLeads, c.bt, c.thr) /\ WindowBounded(Rev(c.s), WLeads, c.bt, c.thr))
 \* ---- witnesses against vacuity (tools/vacuity.py): each is the NEGATION of a lemma's antecedent and must be VIOLATED by some enumerated case ----
 W_ExpandPlaces == ~(c.kind = "exp" /\ \E p \in DOMAIN ExpandVerifU(SubT(c), XLg(c.grid), 2, SubObs(c), c.hours, c.oleads, LUnit(c.grid)) :
                         ~IsNaN(ExpandVerifU(SubT(c), XLg(c.grid), 2, SubObs(c), c.hours, c.oleads, LUnit(c.grid))[p]))
 W_ExpandHalfHour == ~(c.kind = "exp" /\ c.grid = 4 /\ \E p \in DOMAIN ExpandVerifU(SubT(c), XLg(c.grid), 2, SubObs(c), c.hours, c.oleads, 1800) :
                         c.oleads[p[2]] % 2 = 1 /\ ~IsNaN(ExpandVerifU(SubT(c), XLg(c.grid), 2, SubObs(c), c.hours, c.oleads, 1800)[p]))
+W_WindowEndsEarly == ~(c.kind = "win" /\ c.bt \in {"below", "below="} /\ ~HasNaN(c.s) /\ WinCount(c.s, 1, c.bt, c.thr) \in 1..2)
 W_AccWindow == ~(c.kind = "acc" /\ ~AccErr(c))
 =============================================================================
